@@ -201,6 +201,28 @@ Fixpoint clip_users (taken : list N) (us : list (csrc * option qrect)) (st : cst
   | (c, b) :: r => let '(v, st') := clip_convert taken c b st in v :: clip_users taken r st'
   end.
 
+(* ---------------------------------------------------------------- Group::calculate_object_bbox *)
+(* the box a group's clip path / mask / filter is resolved with: the union of the children's boxes (a child group's box
+   already mapped through its transform), zero-width / zero-height boxes included; only a child group without any
+   content is skipped; no area in the end = no box *)
+Record gchild := { gc_box : qrect; gc_empty_group : bool }.
+Definition Qmin_o (a b : Q) : Q := if Qleb a b then a else b.
+Definition Qmax_o (a b : Q) : Q := if Qleb a b then b else a.
+Definition rect_union (a b : qrect) : qrect :=
+  let x1 := Qmin_o (rx a) (rx b) in let y1 := Qmin_o (ry a) (ry b) in
+  let x2 := Qmax_o (r_right a) (r_right b) in let y2 := Qmax_o (r_bottom a) (r_bottom b) in
+  {| rx := x1; ry := y1; rw := x2 - x1; rh := y2 - y1 |}.
+Fixpoint union_children (acc : option qrect) (cs : list gchild) : option qrect :=
+  match cs with
+  | [] => acc
+  | c :: r => if gc_empty_group c then union_children acc r
+              else union_children (Some (match acc with Some a => rect_union a (gc_box c) | None => gc_box c end)) r
+  end.
+Definition object_bbox (cs : list gchild) : option qrect :=
+  match union_children None cs with Some u => to_non_zero_rect u | None => None end.
+Definition rect_inside (a b : qrect) : Prop :=
+  rx b <= rx a /\ ry b <= ry a /\ r_right a <= r_right b /\ r_bottom a <= r_bottom b.
+
 (* ---------------------------------------------------------------- filter primitive sub-regions *)
 Inductive prim_kind := PK_FloodOrImage | PK_Other.
 Definition resolve_primitive_region (kind : prim_kind) (units : units_) (x y w h : option Q)
